@@ -109,6 +109,15 @@ def gen_cases(tier, seed):
                 for k in (1, 3):
                     yield {"family": "D", "name": "early-eof:" + mode, "spec": spec, "args": ["--driver", driver, "-w", str(w)] + margs, "driver": driver,
                            "workers": w, "mode": mode, "k": k, "plan": {"sched": "free", "sched_seed": 1}, "fs": "ext4"}
+    # ... or another program truncates the source once while it is being copied (a log file being rotated); dense and sparse sources
+    for driver in ("parfile", "parblock"):
+        for fs in ("ext4", "tmpfs"):
+            for layout in ("sparse", "dense"):
+                for k, newlen in ((1, 100000), (2, 0), (2, (4 << 20) + 5)):
+                    src = {"p": "src", "k": "d"}
+                    f = {"p": "src/log", "k": "f", "size": 12 << 20, "seed": 31, "segs": [[0, 70000], [4 << 20, 70000], [8 << 20, 70000]] if layout == "sparse" else None, "sync": True}
+                    yield {"family": "D", "name": "truncated-once:" + layout, "spec": [src, f], "args": ["--driver", driver, "-w", "2", "--block-size", "64KB", "-r", "src", "dst"], "driver": driver,
+                           "workers": 2, "mode": "trunc", "k": k, "newlen": newlen, "plan": {"sched": "free", "sched_seed": 1}, "fs": fs}
     # family C: library API
     for c in _api_all_fail(trees, r, tier):
         yield c
@@ -204,6 +213,8 @@ def run_case(case):
             elif case["mode"] == "uspace-write-zero":
                 rules = [{"id": "r", "sys": "copy_file_range", "under": U, "action": "fault", "errno": 18},
                          {"id": "z", "sys": "write" if case["driver"] == "parfile" else "pwrite64", "under": U + "dst", "action": "retval", "val": 0, "from": case["k"]}]
+            elif case["mode"] == "trunc":
+                rules = [{"id": "z", "sys": "copy_file_range", "under": U, "nth": case["k"], "action": "trunc", "target": U + "src/log", "val": case["newlen"]}]
             elif case["mode"] == "cfr-eintr":
                 rules = [{"id": "z", "sys": "copy_file_range", "under": U, "action": "fault", "errno": 4, "from": case["k"]}]
             else:
@@ -213,7 +224,7 @@ def run_case(case):
             plan["max_steps"] = 300000
             run = core.run_xcp(sb, case["args"], plan)
             ok = judge_termination(run, res, "%s:%s" % (case["name"], case["driver"]), "%s from call %d; %s" % (case["mode"], case["k"], " ".join(case["args"])))
-            key = ["D", case["name"], case["driver"], case["workers"], case["k"]]
+            key = ["D", case["name"], case["driver"], case["workers"], case["k"], case["fs"], case.get("newlen")]
         elif fam == "B":
             s = dict(case["site"])
             s["path"] = s["path"].replace("@ROOT@", root)
